@@ -45,11 +45,13 @@ LEVEL = {
     "text": "Lean 4 theorems over an executable model of dns/btree.py (search_in_node with its fast path and binary search, "
             "insert_nonfull with pre-emptive split/adopt and the re-search loop, optimize_in_order_insertion, delete with "
             "balance = try_left_steal/try_right_steal/merge, successor replacement through _get_node, root growth and "
-            "collapse, cursors at implementation level): refinement to a strictly sorted association list and preservation "
+            "collapse, cursors at implementation level with seek/next/prev/park/unpark as a zipper over the in-order listing): refinement to a strictly sorted association list and preservation "
             "of the shape invariant (occupancy, |children| = |elts|+1, uniform leaf depth) for every t >= 3.  The model is "
             "tied to the code by a differential correspondence check on whole histories comparing the full tree shape "
             "after every operation, and by _MIN/_MAX regenerated from the working tree.",
-    "note": "See lean/Props/C19.lean for the layers proved; layers stated only as comments are covered by the tie only. "
+    "note": "Layers L1-L5 are proved (lean/Props/C19.lean). The deletion layer exposes a defect of the code as shipped (an internal "
+            "root left without elements by a deletion of an absent key, later IndexError): full theorem for the intended root "
+            "collapse, guarded theorem + counterexamples for the shipped one; the harness probes which variant the code implements. "
             "Clone isolation and frozen-rejects are immediate in the model (persistent values) and rest on the tie.",
     "technique": "Lean 4 proof (refinement + inductive invariant over height) + model-vs-implementation correspondence on histories",
     "design_ref": "DESIGN.md §7 C19",
@@ -676,7 +678,7 @@ def eval_case(ctx: Ctx, case: dict, minimize=True):
             continue
         seen.add(sig)
         small = case
-        if minimize and sig not in done:
+        if minimize and sig not in done and len(done) < 8:
             done.add(sig)
             try:
                 small = minimise(case, sig)
@@ -1018,7 +1020,7 @@ def exhaustive_small(ctx):
     prefix = [f"I,0,{k},0" for k in (10, 20, 30, 40, 50, 60, 70, 80)]
     n = 0
     for io in (0, 1):
-        for L in range(1, 5):
+        for L in range(1, 6):
             for seq in itertools.product(alphabet, repeat=L):
                 case = {"kind": "hist", "t": 3, "io": io, "set": True, "ops": prefix + list(seq)}
                 ctx.case(("exh", io, seq), sample=None)
@@ -1028,17 +1030,17 @@ def exhaustive_small(ctx):
 
 
 def generate(ctx: Ctx, scale: float, rng):
-    n_hist = max(1, int(420 * scale))
+    n_hist = max(1, int(1300 * scale))
     for i in range(n_hist):
         case = gen_history(rng)
         r = eval_case(ctx, case)
         ctx.case(("hist", case["t"], case["io"], case["set"], tuple(case["ops"])), nontrivial=bool(r and r.mutations), sample=_sample(case))
-    for i in range(max(1, int(30 * scale))):
+    for i in range(max(1, int(40 * scale))):
         case = gen_absent_sweeps(rng)
         r = eval_case(ctx, case)
         ctx.count("absent-sweeps")
         ctx.case(("abs", case["t"], case["set"], tuple(case["ops"])), nontrivial=bool(r and r.mutations), sample=_sample(case))
-    for i in range(max(1, int(60 * scale))):
+    for i in range(max(1, int(120 * scale))):
         case = gen_malformed(rng)
         r = eval_case(ctx, case)
         ctx.count("malformed")
@@ -1065,7 +1067,7 @@ def run(ctx: Ctx):
         ctx.count("corpus")
     if ctx.tier == "thorough":
         exhaustive_small(ctx)
-    generate(ctx, 1 if ctx.tier == "quick" else 12, ctx.rng)
+    generate(ctx, 1 if ctx.tier == "quick" else 10, ctx.rng)
     ctx.extra["layers"] = PROVED_LAYERS
 
 
@@ -1090,6 +1092,21 @@ def impl_of_op(op: str):
 
 
 PROVED_LAYERS = {
-    "proved": [],
-    "tie_only": [],
+    "proved": [
+        "L1 get_refines, inorder_sorted, len_exact",
+        "L2 insert_refines / insert_refines_node: Wf preserved, flat = insSorted, replaced element returned, every t >= 3, in-order optimisation on and off",
+        "L3 delete_refines (intended root collapse: full statement), delete_refines_partial (code as shipped, guarded), "
+        "delete_refines_or_indexError (code as shipped, every well-formed tree: refinement or IndexError with the tree unchanged), "
+        "delete_asShipped_loses_rootOk and delete_asShipped_indexError (counterexamples by evaluation)",
+        "L4 in_order_opt_refines (the optimisation changes the shape only)",
+        "L5 cursor_boundaries, cursor_seek_refines, cursor_next_refines, cursor_prev_refines, cursor_unpark_refines "
+        "(cursors kept across arbitrary mutations resume at the bound of their anchor), cursor_bound_unique",
+        "frozen_rejects, clone_isolated (immediate in the model: persistent values)",
+        "consts_agree (_MIN/_MAX at t = 3..8 and the t >= 3 guard regenerated from the working tree)",
+    ],
+    "tie_only": [
+        "that the registered cursors of a tree are parked by every mutation (BTree.cursors / _check_mutable_and_park) is part of the driver glue, not of a theorem",
+        "copy-on-write isolation of the real nodes (creator tokens): correspondence histories + isolation oracle",
+        "delete_exact error paths (ValueError): correspondence only",
+    ],
 }
